@@ -97,10 +97,21 @@ def parseBbeh (s : String) : Option (BuildBeh Nat Nat Nat) :=
     (parseItems items 0 ⟨none, none, [], []⟩).map .ok
   else none
 
+/-- executable layout on disk and way of invocation (`<disk>[+<invoke>]`, see harness/src/bin/c05.rs). The model has no
+such dimension: `libcnb_runtime` looks at the file name of `argv[0]` only (`Invocation.exe`), so every layout of one name is
+the same abstract invocation. A relative invocation needs an existing working directory. -/
+def layoutOk (link ctx : String) : Bool :=
+  match link.splitOn "+" with
+  | [disk] => ["sym", "copy", "symn", "realbuild", "realdetect"].contains disk
+  | [disk, inv] =>
+    ["sym", "copy", "symn", "realbuild", "realdetect"].contains disk && ["abs", "rel", "dotdot", "path", "arg0"].contains inv &&
+      !((inv = "rel" ∨ inv = "dotdot") ∧ ctx.startsWith "gone")
+  | _ => false
+
 def parseInv (fields : List String) : Option Inv :=
   match fields with
   | [exe, nargs, desc, vars, ctx, dbeh, bbeh, pre, link] =>
-    if link ≠ "sym" ∧ link ≠ "copy" then none else
+    if !(layoutOk link ctx) then none else
     match parseExe exe, nargs.toNat?, parseDesc desc, parseVars vars, ctx.splitOn "/", parseDbeh dbeh, parseBbeh bbeh, pre.splitOn "/" with
     | some exe, some nargs, some desc, some vars, [cwd, plat, planIn], some dbeh, some bbeh, [pp, lp, sp, bp, lp3] =>
       let cwd? : Option Bool := if cwd = "ok" then some true else if cwd = "gone" then some false else none
